@@ -14,18 +14,18 @@ import (
 
 // RunResult is everything a single simulated run produced.
 type RunResult struct {
-	Violations []Violation `json:"violations,omitempty"`
-	Verdict    int         `json:"verdict"` // simrt fatal verdict, if any
-	Stats      simrt.Stats `json:"stats"`
-	Tape       [simrt.NKinds][]uint32 `json:"-"`
-	EventHash  uint64      `json:"event_hash"`
-	ObsHash    uint64      `json:"obs_hash"`
-	Ops        int         `json:"ops"`
-	Skipped    string      `json:"skipped,omitempty"` // why the run was not judged (unstable golden, panicking golden …)
-	FaultsFired map[string]int64 `json:"faults_fired,omitempty"`
-	Probes      map[string]int64 `json:"probes,omitempty"`
-	LinChecked  int `json:"lin_checked,omitempty"`
-	LinUnknown  int `json:"lin_unknown,omitempty"`
+	Violations  []Violation            `json:"violations,omitempty"`
+	Verdict     int                    `json:"verdict"` // simrt fatal verdict, if any
+	Stats       simrt.Stats            `json:"stats"`
+	Tape        [simrt.NKinds][]uint32 `json:"-"`
+	EventHash   uint64                 `json:"event_hash"`
+	ObsHash     uint64                 `json:"obs_hash"`
+	Ops         int                    `json:"ops"`
+	Skipped     string                 `json:"skipped,omitempty"` // why the run was not judged (unstable golden, panicking golden …)
+	FaultsFired map[string]int64       `json:"faults_fired,omitempty"`
+	Probes      map[string]int64       `json:"probes,omitempty"`
+	LinChecked  int                    `json:"lin_checked,omitempty"`
+	LinUnknown  int                    `json:"lin_unknown,omitempty"`
 }
 
 type taskState struct {
@@ -45,13 +45,13 @@ type linEvent struct {
 }
 
 type executor struct {
-	w       *World
-	gold    []*Golden // per object
-	insts   []*inst
-	ts      []taskState
-	single  bool
-	relaxed []bool // per object: after an injected failure
-	steps   func() int64
+	w                           *World
+	gold                        []*Golden // per object
+	insts                       []*inst
+	ts                          []taskState
+	single                      bool
+	relaxed                     []bool // per object: after an injected failure
+	steps                       func() int64
 	sharedJudged, sharedSkipped int64
 }
 
@@ -328,14 +328,14 @@ func Execute(w *World, tape *simrt.Tape, gold []*Golden, onFatal func(int, strin
 		"clock-step": res.Stats.ClockJumps,
 	}
 	res.Probes = map[string]int64{
-		"pool-item-crossed-tasks": res.Stats.PoolCross,
-		"pool-item-reused":        res.Stats.PoolReuse,
-		"once-contended":          res.Stats.OnceContend,
-		"rwlock-blocked":          res.Stats.WriterBlock,
-		"blocked":                 res.Stats.Blocks,
-		"library-spawned-tasks":   res.Stats.Spawned,
-		"channel-operations":      res.Stats.ChanOps,
-		"clock-reads-by-the-library": res.Stats.ClockReads,
+		"pool-item-crossed-tasks":                 res.Stats.PoolCross,
+		"pool-item-reused":                        res.Stats.PoolReuse,
+		"once-contended":                          res.Stats.OnceContend,
+		"rwlock-blocked":                          res.Stats.WriterBlock,
+		"blocked":                                 res.Stats.Blocks,
+		"library-spawned-tasks":                   res.Stats.Spawned,
+		"channel-operations":                      res.Stats.ChanOps,
+		"clock-reads-by-the-library":              res.Stats.ClockReads,
 		"schemas-sharing-type-objects-judged":     x.sharedJudged,
 		"schemas-sharing-type-objects-not-judged": x.sharedSkipped,
 	}
